@@ -69,6 +69,10 @@ const ghostPrelude = `
 func old[T any](x T) T { return x }
 func acq[T any](x T) T { return x }
 func sumInts(s []int) int { return 0 }
+func nanos(t any) int { return 0 }
+func clock() int { return 0 }
+func arrSet[T any](a T, i int, v any) T { return a }
+func signed64(u int) int { return u }
 func implies(a, b bool) bool { return !a || b }
 func iff(a, b bool) bool { return a == b }
 func forall(f any) bool { return true }
